@@ -265,6 +265,10 @@ class Check:
         print(f'{self.prop}: obligations={len(counted)} discharged={len(discharged)} known={len(known)} '
               f'violations={len(violations)} undecided={len(undecided)} checker_errors={len(checker_errors)} '
               f'canaries={len(canaries)} covers={len(covers)} wall={ev["wall_s"]}s tier={self.tier}')
+        # a violation confirmed on the real code stands even if another task of the same run could not be decided
+        # or set up (e.g. a changed function uses a construct outside the supported subset)
+        if any(outcome.get('confirmed') for _, _, outcome in violations):
+            return 1
         if checker_errors:
             return 3
         if violations:
